@@ -90,12 +90,12 @@ def cs_stage(ctx, pid, light=False):
                                extra="VIEW View\n"), timeout=1800, heap="8g")
         mc(ctx, "CsModel", cfgtext(invariants=CS_INVS, props=CS_PROPS, constants=dict(MaxHist=0, Record="FALSE", Scope='"all"', MaxLevel=5 if ctx.quick() else 6, **one),
                                extra="VIEW View\nCONSTRAINT LevelBound\n"), timeout=3000, heap="8g")
-    n, depth = (1200, 10) if ctx.quick() else ((20000, 14) if pid == "C10" else (4000, 14))
+    n, depth = (1200, 10) if ctx.quick() else ((8000, 14) if pid == "C10" else (3000, 14))       # (20000 behaviours took 48 GB in the orchestrator)
     consts = dict(Record="TRUE", Scope='"all"', MaxLevel=0, **CS_CONSTS)
     cases = []
     if not light:
         for pfx, plen in ((0, 0), (1, 1), (2, 4), (3, 2)):
-            cases += gen(ctx, "Gen_Cs", cfgtext(spec="GSpec", invariants=["Emit"], constants=dict(MaxHist=plen + 2 if (pfx == 0 or not ctx.quick()) else plen + 1, PrefixId=pfx, **consts)), timeout=1200, heap="8g")
+            cases += gen(ctx, "Gen_Cs", cfgtext(spec="GSpec", invariants=["Emit"], constants=dict(MaxHist=plen + 2 if (pfx == 0 or (pfx == 1 and not ctx.quick())) else plen + 1, PrefixId=pfx, **consts)), timeout=1200, heap="8g")
     cases += gen(ctx, "Gen_Cs", cfgtext(invariants=["Emit"], constants=dict(MaxHist=depth, PrefixId=0, **consts)), simulate=max(1, n // 50), depth=depth + 2, seed=ctx.seed, timeout=1200, heap="8g")
     events = harness(ctx, ["exec", "memflow"], cases)
     jc = "".join("CONSTANT %s = %s\n" % kv for kv in dict(MaxHist=0, Record="FALSE", Scope='"all"', MaxLevel=0, **CS_CONSTS).items())
@@ -125,7 +125,7 @@ def sg_stage(ctx, pid, light=False):
                                      extra="VIEW View\n"), timeout=1800, heap="8g")
         mc(ctx, "SignModel", cfgtext(invariants=SG_INVS, props=SG_PROPS, constants=dict(MaxHist=0, Record="FALSE", Scope='"all"', MaxLevel=4 if ctx.quick() else 6, **SG_CONSTS),
                                      extra="VIEW View\nCONSTRAINT LevelBound\n"), timeout=3000, heap="8g")
-    n, depth = (1200, 10) if ctx.quick() else ((20000, 14) if pid == "C11" else (4000, 14))
+    n, depth = (1200, 10) if ctx.quick() else ((8000, 14) if pid == "C11" else (3000, 14))       # (20000 behaviours exhausted the sandbox's memory)
     consts = dict(Record="TRUE", Scope='"all"', MaxLevel=0, **SG_CONSTS)
     cases = []
     if not light:
@@ -134,7 +134,7 @@ def sg_stage(ctx, pid, light=False):
         for pfx, plen in ((0, 0), (1, 1), (2, 3), (3, 1)):
             cases += gen(ctx, "Gen_Sg", cfgtext(spec="GSpec", invariants=["Emit"], constants=dict(MaxHist=plen + 2, PrefixId=pfx, **small)), timeout=1200, heap="8g")
         if not ctx.quick():
-            cases += gen(ctx, "Gen_Sg", cfgtext(spec="GSpec", invariants=["Emit"], constants=dict(MaxHist=2, PrefixId=0, **consts)), timeout=1200, heap="8g")
+            cases += gen(ctx, "Gen_Sg", cfgtext(spec="GSpec", invariants=["Emit"], constants=dict(MaxHist=2, PrefixId=0, **dict(consts, Exts='{"none"}'))), timeout=1200, heap="8g")
     cases += gen(ctx, "Gen_Sg", cfgtext(invariants=["Emit"], constants=dict(MaxHist=depth, PrefixId=0, **consts)), simulate=max(1, n // 50), depth=depth + 2, seed=ctx.seed, timeout=1200, heap="8g")
     events = harness(ctx, ["exec", "memflow"], cases)
     jc = "".join("CONSTANT %s = %s\n" % kv for kv in dict(MaxHist=0, Record="FALSE", Scope='"all"', MaxLevel=0, **SG_CONSTS).items())
